@@ -21,7 +21,7 @@ def _db():
 	return _cache['db'], _cache['q']
 
 
-HOSTILE = ['plain', 'comma, inside', 'quote " inside', 'new\nline', 'crlf\r\nline', 'ünïcödé 名前', ' lead and trail ', '"quoted"', 'semi;colon\ttab', '']
+HOSTILE = ['-80C_isolate', '+ctrl', '@plate3', '=A1+B2', '\tlead tab', "'quoted start", 'plain', 'comma, inside', 'quote " inside', 'new\nline', 'crlf\r\nline', 'ünïcödé 名前', ' lead and trail ', '"quoted"', 'semi;colon\ttab', '']
 
 
 def _results(case):
